@@ -44,14 +44,19 @@ Pairs    == {[t |-> "Pair", chain |-> c, amt |-> a, fee |-> f, prior |-> pr, sam
 \* one EndBlock (sums on the account and in the supply)
 RPairs   == {[t |-> "RPair", chain |-> "ethereum", amt |-> a, both |-> b, world |-> "plain"] : a \in {"p255", "small"}, b \in BOOLEAN}
 
-Cases == Deposits \cup ToHubs \cup Execs \cup SSExecs \cup CCExecs \cup Sends \cup Pairs \cup RPairs
+\* oracle price claims (messages of validator accounts): every required price has the same value class; with two of three equal
+\* validators voting the median is the mean of two claimed values
+OPrices  == {[t |-> "OPrice", chain |-> "ethereum", val |-> v, voters |-> n, world |-> w] :
+               v \in {"one", "maxdec", "tiny"}, n \in {1, 2, 3}, w \in {"plain", "keys+prices"}}
+
+Cases == Deposits \cup ToHubs \cup Execs \cup SSExecs \cup CCExecs \cup Sends \cup Pairs \cup RPairs \cup OPrices
 
 VARIABLE case
 Init == case \in Cases
 Next == UNCHANGED case
 Spec == Init /\ [][Next]_case
 \* every case is well formed (all fields drawn from the declared classes); the behavioural claim is checked on the real code
-WellFormed == case.t \in {"Deposit", "ToHub", "Exec", "SSExec", "CCExec", "Send", "Pair", "RPair"} /\ case.chain \in Chains
+WellFormed == case.t \in {"Deposit", "ToHub", "Exec", "SSExec", "CCExec", "Send", "Pair", "RPair", "OPrice"} /\ case.chain \in Chains
 
 ASSUME IF "VERIF_OUT" \in DOMAIN IOEnv THEN JsonSerialize(IOEnv.VERIF_OUT, SetToSeq(Cases)) ELSE TRUE
 =============================================================================
